@@ -32,6 +32,9 @@ const LOAD_FAULTS: &[&str] = &[
   "unparsable",
   "final-specifier-inside-registry",
   "different-final-specifier-unparsable",
+  // an External answer that names another specifier: the build's root, which
+  // is settled by then and must stay what it is
+  "external-naming-the-root",
 ];
 const META_FAULTS: &[&str] = &[
   "malformed-json",
@@ -272,6 +275,9 @@ fn build_fixture_sched(
         })),
         "external" => Ok(Some(LoadResponse::External {
           specifier: spec.clone(),
+        })),
+        "external-naming-the-root" => Ok(Some(LoadResponse::External {
+          specifier: url("https://x/root.ts"),
         })),
         "different-final-specifier" => module(&honest, Some("https://x/final_elsewhere.ts"), None),
         "charset-bogus" => module(&honest, None, Some(vec![("content-type", "application/typescript; charset=bogus")])),
